@@ -9,10 +9,13 @@ namespace nmtools::index
 {
     struct linspace_step_t {};
 
-    template <typename start_t, typename stop_t, typename num_t, typename endpoint_t>
+    template <typename element_t=none_t, typename start_t, typename stop_t, typename num_t, typename endpoint_t>
     constexpr auto linspace_step(const start_t& start, const stop_t& stop, num_t num, endpoint_t endpoint)
     {
-        using result_t = meta::resolve_optype_t<linspace_step_t,start_t,stop_t,num_t,endpoint_t>;
+        using base_t   = meta::resolve_optype_t<linspace_step_t,start_t,stop_t,num_t,endpoint_t>;
+        // a requested floating element type wider than the default step type must not lose its precision in the step
+        using result_t = meta::conditional_t<
+            meta::is_floating_point_v<element_t> && (sizeof(element_t) > sizeof(base_t)), element_t, base_t>;
         
         auto result = result_t {};
 
@@ -112,7 +115,7 @@ namespace nmtools::view
         using stop_type  = meta::fwd_attribute_t<stop_t>;
         using num_type   = num_t;
         using endpoint_type = endpoint_t;
-        using step_type     = meta::resolve_optype_t<index::linspace_step_t,start_type,stop_type,num_type,endpoint_t>;
+        using step_type     = decltype(index::linspace_step<T>(meta::declval<start_t>(),meta::declval<stop_t>(),meta::declval<num_t>(),meta::declval<endpoint_t>()));
         using element_type  = T;
         // TODO: rename array_type to operand_type
         using array_type = nmtools_tuple<>;
@@ -130,7 +133,7 @@ namespace nmtools::view
             , stop(fwd_attribute(stop))
             , num(num)
             , endpoint(endpoint)
-            , step(index::linspace_step(start,stop,num,endpoint))
+            , step(index::linspace_step<T>(start,stop,num,endpoint))
             , shape_(index::linspace_shape(start,stop,num))
         {}
 
@@ -159,7 +162,14 @@ namespace nmtools::view
         {
             auto indices_ = pack_indices(indices...);
             auto i = at(indices_,meta::ct_v<0>);
-            return static_cast<element_type>(start) + (i * step);
+            // compute in the step precision, convert once at the end (numpy floors before converting to an integer dtype)
+            auto value = start + (i * step);
+            if constexpr (meta::is_integral_v<element_type>) {
+                auto truncated = static_cast<element_type>(value);
+                return static_cast<element_type>((value < 0 && static_cast<decltype(value)>(truncated) != value) ? truncated - 1 : truncated);
+            } else {
+                return static_cast<element_type>(value);
+            }
         }
     }; // linspace_t
 
@@ -178,7 +188,7 @@ namespace nmtools::view
 
         constexpr auto retstep = meta::to_value_v<retstep_t>;
         if constexpr (retstep) {
-            auto step = index::linspace_step(start,stop,num,endpoint);
+            auto step = index::linspace_step<T>(start,stop,num,endpoint);
             using step_t   = decltype(step);
             using return_t = nmtools_tuple<result_t,step_t>;
             return return_t{
